@@ -511,7 +511,13 @@ pub fn plan(property: &str, tier: Tier) -> Option<Plan> {
                 // per-key function with a bind on the outer variable that decides whether the key's input is read
                 jobs.push(pk("c16/switch-k1", "rel", 8));
                 jobs.push(pk("c16/switch-k1", "dbg", 7));
+                // the per-key function exports its input nodes, one of them stays observed: the operator's driver runs
+                // while the output is unobserved
+                jobs.push(pk("c16/leak-k2", "rel", 8));
+                jobs.push(pk("c16/leak-k2", "dbg", 7));
             } else {
+                jobs.push(pk("c16/leak-k2", "rel", 10));
+                jobs.push(pk("c16/leak-k2", "dbg", 9));
                 jobs.push(pk("c16/switch-k1", "rel", 10));
                 jobs.push(pk("c16/switch-k2", "rel", 7));
                 jobs.push(pk("c16/switch-k1", "dbg", 9));
